@@ -98,7 +98,7 @@ def build():
                    C('C08.hk.reconnect_uplink.failed_socket_work_leaves_the_link_untouched', 'r is Err ==> *final(conn) == *old(conn)'),
                    C('C06+C08.hk.reconnect_uplink.rejoins_with_default_window_zero_in_flight_registering', '''r is Ok ==> final(conn).window == 20000 && final(conn).in_flight_packets == 0 && final(conn).packet_log@.len() == 0
             && !final(conn).connected && final(conn).phase is Registering && final(conn).last_received is None'''),
-                   C('C08.hk.reconnect_uplink.retry_clock_restarts', 'r is Ok ==> final(conn).reconnection.last_reconnect_attempt_ms == now && final(conn).reconnection.reconnect_failure_count == 0 && final(conn).reconnection.startup_grace_deadline_ms == now + 5000'),
+                   C('C07+C08.hk.reconnect_uplink.retry_clock_and_startup_grace_restart', 'r is Ok ==> final(conn).reconnection.last_reconnect_attempt_ms == now && final(conn).reconnection.reconnect_failure_count == 0 && final(conn).reconnection.startup_grace_deadline_ms == now + 5000'),
                    'r is Ok ==> final(conn).batch_sender.wf() && final(conn).batch_sender.queue.len() == 0 && final(conn).wf()',
                    'final(conn).conn_id == old(conn).conn_id',
                    'r is Ok ==> final(conn).reconnection.connection_established_ms == old(conn).reconnection.connection_established_ms',
